@@ -376,7 +376,7 @@ theorem nullable_step {fuel : Nat} {ss : Schemas} {t : Ty} {v : GoVal} {lc ls : 
             | none => X) = .ok ls) : lc = ls := by
   by_cases hnil : v.isNil = true
   · simp [hnil] at hc hsp; rw [hc, hsp]
-  · simp only [hnil, if_false] at hc hsp
+  · simp only [hnil] at hc hsp
     cases hu : v.unptr with
     | none => simp [hu] at hc
     | some v' => simp only [hu] at hc hsp; exact ih v' lc ls hc hsp
@@ -407,9 +407,159 @@ theorem tvc_eq_violations (ss : Schemas) (hs : noConstrainedAlias ss = true) :
         | true => simp only [if_true] at hc; exact nullable_step (fun v' lc ls => ih _ false v' lc ls hr) hc hsp
         | false =>
           simp only [Bool.false_eq_true, if_false] at hc
-          trace_state
-          sorry
+          have hcs : cs ≠ [] := by
+            intro h0; subst h0; simp [rtc] at hr
+          obtain ⟨c, cs', rfl⟩ := List.exists_cons_of_ne_nil hcs
+          by_cases hnil : v.isNil = true
+          · simp [checkConstraints_nil_ptr (Or.inl hnil)] at hc
+            split at hc <;> simp at hc
+          · simp only [hnil] at hsp
+            cases hu : v.unptr with
+            | some v' =>
+              have hp : v.unptr.isSome = true := by simp [hu]
+              simp [checkConstraints_nil_ptr (Or.inr hp)] at hc
+              split at hc <;> simp at hc
+            | none =>
+              simp only [hu, specAt] at hsp
+              have hk : (kd == "any") = false := by
+                simp only [rtc, Bool.and_eq_true] at hr
+                simpa using hr.1
+              simp only [hk] at hsp
+              split at hc
+              · simp at hc
+              · rename_i hdt
+                simp only [hdt, Bool.false_eq_true, if_false] at hsp
+                rw [check_eq_violated] at hc
+                cases hvc : violatedConstraints v (c :: cs') with
+                | none => simp [hvc] at hc
+                | some l =>
+                  simp [hvc] at hc hsp
+                  rw [← hc, ← hsp]
       | ref p n m =>
-        trace_state
-        sorry
-      | _ => sorry
+        cases hres : resolveRefs ss (.ref p n m) with
+        | none => simp [hres] at hc
+        | some rt =>
+          simp only [hres] at hc hsp
+          simp only [rtc, hres] at hr
+          cases rt with
+          | struct fs g gi sm =>
+            simp only [Ty.isRef, if_true] at hc
+            cases nb with
+            | true =>
+              simp only [if_true] at hc
+              refine nullable_step (X := specAt (violations fuel ss) (.struct fs g gi sm) v)
+                (fun v' lc ls => ih _ false v' lc ls (by simp [rtc, hres])) hc ?_
+              exact hsp
+            | false =>
+              simp only [Bool.false_eq_true, if_false] at hc
+              by_cases hrf : rtcFields ss fs = true
+              · simp only [hrf, if_true] at hc
+                cases hf : fieldVals v with
+                | none => simp [hf] at hc
+                | some fvs =>
+                  obtain ⟨hu, hnil⟩ := fieldVals_unptr hf
+                  simp only [hf] at hc
+                  simp only [hnil, Bool.false_eq_true, if_false, hu, specAt, hf] at hsp
+                  exact loopFields_spec fs fvs lc ls
+                    (fun fd _ hg v lc ls h1 h2 => ih fd.ty _ v lc ls hg h1 h2)
+                    (fun fd _ hg v ls h2 => rtc_false_no_violations ss hs fuel fd.ty v ls hg h2) hc hsp
+              · simp only [hrf] at hc
+                simp at hc
+                subst hc
+                have hrf' : rtcFields ss fs = false := by simpa using hrf
+                -- the specification finds nothing either: no field resolves to constraints
+                have key : ∀ (k : Nat) (w : GoVal) (l : List Viol),
+                    violations k ss (.ref p n m) w = .ok l → l = [] := by
+                  intro k
+                  induction k with
+                  | zero => intro w l h; simp [violations] at h
+                  | succ k ihk =>
+                    intro w l h
+                    simp only [violations] at h
+                    split at h
+                    · simp at h; exact h
+                    · cases hu : w.unptr with
+                      | some w' => simp only [hu] at h; exact ihk w' l h
+                      | none =>
+                        simp only [hu, hres, specAt] at h
+                        cases hf : fieldVals w with
+                        | none => simp [hf] at h
+                        | some fvs =>
+                          simp only [hf] at h
+                          exact specFields_nil_of fs fvs l
+                            (fun fd hm v l hv => rtc_false_no_violations ss hs k fd.ty v l
+                              (rtcFields_false_mem ss fs hrf' fd hm) hv) h
+                have hv : violations (fuel + 1) ss (.ref p n m) v = .ok ls := by
+                  simp only [violations, hres]; exact hsp
+                exact (key (fuel + 1) v ls hv).symm
+          | _ => simp at hr
+      | array e m =>
+        rw [resolveRefs_nonref ss (by simp [Ty.isRef])] at hc hsp
+        simp only at hc
+        simp only [rtc] at hr
+        by_cases hnil : v.isNil = true
+        · simp [hnil] at hc hsp; rw [hc, hsp]
+        · simp only [hnil] at hc hsp
+          cases he : v.elems? with
+          | none => simp [he] at hc
+          | some vs =>
+            obtain ⟨hu, _⟩ := elems_unptr he
+            simp only [he] at hc
+            simp only [hu, specAt, he] at hsp
+            exact loopIdx_congr (fun v l l' h1 h2 => ih e _ v l l' hr h1 h2) vs 0 lc ls hc hsp
+      | map i e m =>
+        rw [resolveRefs_nonref ss (by simp [Ty.isRef])] at hc hsp
+        simp only at hc
+        simp only [rtc] at hr
+        by_cases hnil : v.isNil = true
+        · simp [hnil] at hc hsp; rw [hc, hsp]
+        · simp only [hnil] at hc hsp
+          cases he : v.entries? with
+          | none => simp [he] at hc
+          | some kvs =>
+            obtain ⟨hu, _⟩ := entries_unptr he
+            simp only [he] at hc
+            simp only [hu, specAt, he] at hsp
+            exact loopKey_congr (fun v l l' h1 h2 => ih e _ v l l' hr h1 h2) kvs lc ls hc hsp
+      | struct fs g gi m =>
+        rw [resolveRefs_nonref ss (by simp [Ty.isRef])] at hc hsp
+        simp only [Ty.isRef] at hc
+        cases nb with
+        | true => simp only [if_true] at hc; exact nullable_step (fun v' lc ls => ih _ false v' lc ls hr) hc hsp
+        | false =>
+          simp only [Bool.false_eq_true, if_false] at hc
+          cases hf : fieldVals v with
+          | none => simp [hf] at hc
+          | some fvs =>
+            obtain ⟨hu, hnil⟩ := fieldVals_unptr hf
+            simp only [hf] at hc
+            simp only [hnil, Bool.false_eq_true, if_false, hu, specAt, hf] at hsp
+            exact loopFields_spec fs fvs lc ls
+              (fun fd _ hg v lc ls h1 h2 => ih fd.ty _ v lc ls hg h1 h2)
+              (fun fd _ hg v ls h2 => rtc_false_no_violations ss hs fuel fd.ty v ls hg h2) hc hsp
+      | cref p n val m =>
+        rw [resolveRefs_nonref ss (by simp [Ty.isRef])] at hc hsp
+        simp only [Ty.isRef] at hc
+        cases nb with
+        | true => simp only [if_true] at hc; exact nullable_step (fun v' lc ls => ih _ false v' lc ls hr) hc hsp
+        | false => simp at hc
+      | disj bs i m =>
+        rw [resolveRefs_nonref ss (by simp [Ty.isRef])] at hc hsp
+        simp only [Ty.isRef] at hc
+        cases nb with
+        | true => simp only [if_true] at hc; exact nullable_step (fun v' lc ls => ih _ false v' lc ls hr) hc hsp
+        | false => simp at hc
+      | inter bs m =>
+        rw [resolveRefs_nonref ss (by simp [Ty.isRef])] at hc hsp
+        simp only [Ty.isRef] at hc
+        cases nb with
+        | true => simp only [if_true] at hc; exact nullable_step (fun v' lc ls => ih _ false v' lc ls hr) hc hsp
+        | false => simp at hc
+      | slot vr m =>
+        rw [resolveRefs_nonref ss (by simp [Ty.isRef])] at hc hsp
+        simp only [Ty.isRef] at hc
+        cases nb with
+        | true => simp only [if_true] at hc; exact nullable_step (fun v' lc ls => ih _ false v' lc ls hr) hc hsp
+        | false => simp at hc
+      | enum vs m => simp [rtc] at hr
+      | bad k m => simp [rtc] at hr
